@@ -927,6 +927,30 @@ func (c *Conn) checkUnique(tab *Table, self string, r Row) error {
 	return nil
 }
 
+// uniqueLockNames names the lock of every unique secondary index entry of r.
+func uniqueLockNames(tab *Table, r Row) []string {
+	var out []string
+	for _, ix := range tab.Indexes {
+		if !ix.Unique || ix.Primary {
+			continue
+		}
+		var vals []string
+		null := false
+		for _, cn := range ix.Cols {
+			i, _ := tab.Col(cn)
+			if r[i] == nil {
+				null = true
+				break
+			}
+			vals = append(vals, keyPart(r[i]))
+		}
+		if !null {
+			out = append(out, lockName(tab, "uk:"+strings.ToLower(ix.Name)+":"+strings.Join(vals, "|")))
+		}
+	}
+	return out
+}
+
 type dupErr struct {
 	sqlErr
 	key string // pk key of the conflicting row
@@ -1059,6 +1083,14 @@ func (c *Conn) doInsert(st *ast.InsertStmt, args []interface{}) (*result, error)
 		}
 		if o := c.srv.tryLock(c.txn, lockName(tab, key)); o != nil {
 			return nil, &conflict{o}
+		}
+		// an insert also locks its unique secondary index entries: a second
+		// transaction inserting the same entry waits for the first one to end
+		// (and then fails with a duplicate-key error if that one committed)
+		for _, un := range uniqueLockNames(tab, row) {
+			if o := c.srv.tryLock(c.txn, un); o != nil {
+				return nil, &conflict{o}
+			}
 		}
 		existing, exists := visible(key)
 		dupKey := ""
